@@ -21,6 +21,7 @@ func init() {
 		Quick: 64, Thorough: 320, FloorQuick: 30, FloorThorough: 150,
 		CaseTimeout: 15 * time.Minute,
 		Assumptions: []string{"the race detector reports only races on accesses that happened in these runs and forgets old accesses (bounded shadow history); GORACE history_size=5 and repetition with jitter mitigate, they do not eliminate"},
+		Setup:       func(w *core.Worker) { core.HermeticProcess(w.Work) },
 		Fn:          c13Case,
 	})
 }
@@ -44,6 +45,16 @@ func genC13(r *core.Rng, i int) (files map[string]string, prog string, extra []s
 			k++
 		}
 		p := c12Sel[(2*k)%len(c12Sel)] + ";\n" + c12Sel[(2*k+1)%len(c12Sel)] + ";"
+		// plus one statement in which all workers of a section touch the same few shared elements
+		hot := []string{
+			"SELECT COUNT(*) FROM t FULL JOIN (SELECT id, k FROM u WHERE id <= 3) x ON t.id > 0",
+			"SELECT COUNT(*) FROM (SELECT id FROM u WHERE id <= 2) x FULL JOIN t ON x.id < t.id",
+			"SELECT COUNT(*) FROM t FULL JOIN (SELECT id, k FROM u WHERE id <= 3) x ON t.k = x.k",
+			"SELECT COUNT(*) FROM t WHERE RAND(1, 6) > 0 AND RAND() >= 0",
+			"SELECT k, COUNT(*), COUNT(DISTINCT v) FROM t GROUP BY k",
+			"SELECT COUNT(*) FROM t WHERE v IN (SELECT w FROM u WHERE u.id <= 3) OR EXISTS (SELECT 1 FROM u WHERE u.k = t.k AND u.id <= 2)",
+		}
+		p += "\n" + hot[k%len(hot)] + ";"
 		if k%3 == 0 {
 			p += "\n" + c12Dml[(k/3)%len(c12Dml)] + ";"
 		}
@@ -78,7 +89,26 @@ func genC13(r *core.Rng, i int) (files map[string]string, prog string, extra []s
 		return files, strings.Join(parts, ";\n") + ";", nil, n >= 299
 	default:
 		f, _, _ := genC12(r)
+		if i%8 == 7 {
+			// every built-in scalar function evaluated per row by parallel workers (shared caches, generators, pools):
+			// 20 function names per case, each with several argument shapes, one process per statement (most shapes are
+			// rejected for most functions; a rejected statement costs nothing and races nothing)
+			names := c14Names()
+			var stmts []string
+			base := (i / 8) * 20
+			for k := 0; k < 20; k++ {
+				fn := names[(base+k)%len(names)]
+				for _, a := range []string{"()", "(v)", "(s)", "(v, 2)", "(s, 'a')", "(s, 1, 2)", "(s, 'a', 'b')", "('2012-02-03 04:05:06', v)", "(v, 1, 2)"} {
+					stmts = append(stmts, "SELECT "+fn+a+" AS x FROM t;")
+				}
+			}
+			return f, "\x00SWEEP\x00" + strings.Join(stmts, "\x00"), nil, true
+		}
 		progs := []string{
+			// flags shared by all workers of an outer join: few right-hand rows, every worker matches all of them
+			"SELECT COUNT(*) FROM t FULL JOIN (SELECT id, k FROM u WHERE id <= 3) x ON t.id > 0;\nSELECT COUNT(*) FROM (SELECT id FROM u WHERE id <= 2) x FULL JOIN t ON x.id < t.id;\nSELECT COUNT(*) FROM t LEFT JOIN (SELECT id FROM u WHERE id <= 2) x ON 1 = 1;\nSELECT COUNT(*) FROM t FULL JOIN (SELECT id, k FROM u WHERE id <= 3) x ON t.k = x.k;",
+			// the shared random number generator
+			"SELECT id, RAND(), RAND(1, 6) FROM t WHERE RAND() >= 0 ORDER BY RAND();\nSELECT k, COUNT(*) FROM t GROUP BY k HAVING RAND(1, 2) > 0;",
 			// user-defined scalar function and aggregate evaluated per row by parallel workers
 			"DECLARE f FUNCTION (@a, @b DEFAULT 2) AS BEGIN VAR @x := @a * @b; IF @x > 10 THEN RETURN @x - 10; END IF; RETURN @x; END;\n" +
 				"DECLARE ag AGGREGATE (c) AS BEGIN VAR @s := 0; VAR @v; WHILE @v IN c DO IF @v IS NOT NULL THEN @s := @s + @v; END IF; END WHILE; RETURN @s; END;\n" +
@@ -121,12 +151,40 @@ func c13Case(w *core.Worker, i int) {
 		}
 		_ = os.Remove(tracePath)
 		args := csvqArgs("-q", "-f", "CSV", "--cpu", fmt.Sprint(cpu), prog)
-		env := []string{"GORACE=halt_on_error=0 history_size=5 log_path=" + logBase, fmt.Sprintf("VERIF_JITTER=%d", r.U64()|1)}
+		env := []string{"GORACE=halt_on_error=0 history_size=5 atexit_sleep_ms=40 log_path=" + logBase, fmt.Sprintf("VERIF_JITTER=%d", r.U64()|1)}
 		if rep == 0 {
 			env = append(env, "VERIF_TRACE="+tracePath)
 		}
-		res := core.RunProc(core.ProcOpts{Bin: core.CsvqRaceBin, Dir: d, Args: args, Env: env, Timeout: 300 * time.Second})
-		total++
+		var res core.ProcResult
+		if strings.HasPrefix(prog, "\x00SWEEP\x00") {
+			if rep > 0 {
+				break
+			}
+			okN := 0
+			// argument shapes a function rejects are filtered out in-process on two rows (milliseconds) before the race build runs the rest
+			pre, perr := core.NewSess(core.SessOpts{Dir: d, CPU: 1, Quiet: true})
+			for _, st := range strings.Split(strings.TrimPrefix(prog, "\x00SWEEP\x00"), "\x00") {
+				if perr == nil {
+					if pr := pre.Exec(strings.Replace(st, "FROM t;", "FROM t WHERE id <= 2;", 1)); pr.Err != nil {
+						continue
+					}
+				}
+				res = core.RunProc(core.ProcOpts{Bin: core.CsvqRaceBin, Dir: d, Args: csvqArgs("-q", "-f", "CSV", "--cpu", "8", st), Env: env, Timeout: 300 * time.Second})
+				total++
+				if res.Code == 0 {
+					okN++
+					w.Note("functions_raced_per_row", strings.SplitN(strings.TrimPrefix(st, "SELECT "), "(", 2)[0])
+				}
+			}
+			if perr == nil {
+				pre.Close()
+			}
+			w.Count("function_sweep_statements_evaluated", int64(okN))
+			res.TimedOut = false
+		} else {
+			res = core.RunProc(core.ProcOpts{Bin: core.CsvqRaceBin, Dir: d, Args: args, Env: env, Timeout: 300 * time.Second})
+			total++
+		}
 		if rep == 0 {
 			for _, e := range core.ReadTrace(tracePath) {
 				if strings.HasPrefix(e.Name, "worker.") || (e.Name == "load.begin") {
